@@ -8,6 +8,7 @@ def run(ctx):
     splits.rule_split_contents(ctx)
     from . import invariance
     invariance.rule_component_traversal(ctx)
+    accept.rule_running_intersection(ctx)
     progress.rule_ideal_early_exit(ctx)  # the ideal solver's enumeration stops only when the intersection is the grounded extension
     cli.rule_answer_after_solver(ctx)  # the command line prints the status the solver returned, after it returned
     accept.rule_delegation_pairs(ctx)
